@@ -210,3 +210,19 @@ C("c18-dummy-ret", "C18", CTX, "        self.verify(self._dummy_secret, self._du
 C("c18-enable-strip", "C18", MISC, "                orig = hash[len(prefix) :]\n                if orig:\n                    return orig\n                raise ValueError(\"cannot restore original hash\")", "                orig = hash[len(prefix) :]\n                return orig", "C18.c")
 C("c18-disable-nest", "C18", MISC, "            if cls.identify(hash):\n                # extract original hash, so that we normalize marker\n                hash = cls.enable(hash)\n", "", "C18.c")
 C("c18-ctx-enable", "C18", CTX, "        if record.is_disabled:\n            # XXX: should we throw error if result can't be identified by context?\n            return record.enable(hash)\n        # hash wasn't a disabled hash, so return unchanged\n        return hash", "        return record.enable(hash)", "C18.c")
+
+# ---- C12
+C("c12-enc-mask", "C12", BIN, "            yield ((v2 & 0x0F) << 2) | (v1 >> 6)\n            yield ((v3 & 0x03) << 4) | (v2 >> 4)\n            yield v3 >> 2\n            idx += 1", "            yield ((v2 & 0x0F) << 2) | (v1 >> 6)\n            yield ((v3 & 0x07) << 4) | (v2 >> 4)\n            yield v3 >> 2\n            idx += 1", "C12.a")
+C("c12-dec-shift", "C12", BIN, "            yield (v3 >> 4) | (v4 << 2)", "            yield (v3 >> 4) | (v4 << 3)", "C12.a")
+C("c12-tail-big", "C12", BIN, "                yield (v1 & 0x03) << 4\n", "                yield (v1 & 0x03) << 2\n", "C12.a")
+C("c12-padmask", "C12", BIN, "        bits = 3 if self.big else (3 << 4)", "        bits = 3 if self.big else (3 << 2)", "C12.b")
+C("c12-int30", "C12", BIN, "if value < 0 or value > 0x3FFFFFFF:", "if value < 0 or value > 0x3FFFFFFFF:", "C12.d")
+C("c12-int12-raw", "C12", BIN, "raw = [value & 0x3F, (value >> 6) & 0x3F]", "raw = [value & 0x3F, (value >> 8) & 0x3F]", "C12.d")
+C("c12-int24-dec", "C12", BIN, "                + (decode(source[2]) << 12)\n                + (decode(source[3]) << 18)\n            )", "                + (decode(source[2]) << 12)\n                + (decode(source[3]) << 16)\n            )", "C12.d")
+C("c12-alphabet", "C12", BIN, 'HASH64_CHARS = "./0123456789ABCDEFGHIJKLMNOPQRSTUVWXYZabcdefghijklmnopqrstuvwxyz"', 'HASH64_CHARS = "./0123456789ABCDEFGHIJKLMNOPQRSTUVWXZYabcdefghijklmnopqrstuvwxyz"', "C12.e")
+C("c12-pad-table", "C12", BIN, "    elif off == 2:\n        data += _BASE64_PAD2\n    elif off == 3:\n        data += _BASE64_PAD1", "    elif off == 2:\n        data += _BASE64_PAD1\n    elif off == 3:\n        data += _BASE64_PAD2", "C12.f")
+C("c12-ab64-str", "C12", BIN, '    return b64s_decode(data.replace(b".", b"+"))', '    return b64s_decode(data.replace(b"+", b"."))', "C12.f")
+C("c12-b32-bytes", "C12", BIN, '    if isinstance(source, str):\n        source = source.encode("ascii")\n    source = source.translate(_b32_translate)', '    if isinstance(source, str):\n        source = source.encode("ascii").translate(_b32_translate)', "C12.f")
+C("c12-libpass-copy", "C12", "libpass/_utils/binary.py", "        yield ((v2 & 0x0F) << 2) | (v1 >> 6)\n        yield ((v3 & 0x03) << 4) | (v2 >> 4)\n        yield v3 >> 2\n        idx += 1", "        yield ((v2 & 0x0F) << 2) | (v1 >> 6)\n        yield ((v3 & 0x03) << 4) | (v2 >> 4)\n        yield v3 >> 3\n        idx += 1", "C12")
+C("c12-endian-swap", "C12", BIN, "            self._encode_bytes = self._encode_bytes_big\n            self._decode_bytes = self._decode_bytes_big", "            self._encode_bytes = self._encode_bytes_big\n            self._decode_bytes = self._decode_bytes_little", "C12.c")
+C("c12-bcrypt64", "C12", BIN, "bcrypt64 = LazyBase64Engine(BCRYPT_CHARS, big=True)", "bcrypt64 = LazyBase64Engine(BCRYPT_CHARS)", "C12.e")
